@@ -4,6 +4,9 @@ import json, os
 V = "/verif"
 CLAIMED = {
  # id: (clause text, technique, level_note, design_ref)
+ "C04": ("Decides the structural mechanisms of nonce handling for every account and history at once: CheckNonce is a pure equality guard applied to the sender and the tx nonce before any controller runs; Account.Nonce has a closed set of writers (+1 primitive, EVM write-back, decode) with closed sets of callers; a decision table over (tx type x receiver-has-code x exec), evaluated exhaustively on the CFGs of runTrx and postRunTrx, shows that exactly the natively executed transactions consume exactly one nonce of ctx.Sender (followed by marking the account) on every success path and EVM-routed ones none; on the EVM route the transaction's own nonce reaches the message with nonce checking enabled and Finish writes the EVM's nonce back. The arithmetic consequence over a history is not computed.",
+         "who-may-write / who-may-call rules over the call graph + guard dominance + exhaustive abstract evaluation (decision table) of the routing CFGs",
+         "trusted: go/ssa, call graph, go-ethereum's nonce check; client-side packages (libs/web3, sfeeder, cmd) are outside the who-may-call scope", "DESIGN.md §3 C04"),
  "C18": ("Decides, exhaustively over a finite abstract domain, that the ledger package's code implements an overlayed map for every operation sequence on one key: the SSA of the ledger methods and all memItems helpers is evaluated by an abstract interpreter (one tracked key; items as value tags; containers as has-key/tag; removed-key list as occurrence count; tree as absent/tag) and every sequence of Set/Get/Del on both overlays, Read and Commit is explored to closure against the reference model (reads, commit net effect, overlay clearing, mempool isolation from consensus). Plus: the IAVL tree is mutated only in Commit (removals before updates), tree iterators do not consult overlays, no version is ever deleted, ImmutableLedgerAt(n) loads exactly n into a fresh tree with fresh overlays. Reopen and Cancel* are not covered.",
          "abstract interpretation of the package's SSA over a finite one-key domain, explored to closure against a reference model + who-may-call / ordering rules on the IAVL API",
          "trusted: go/ssa, iavl, the per-key independence of Go maps and list membership; the interpreter answers 'undecided' (check fails) if the code leaves the abstract domain", "DESIGN.md §3 C18"),
